@@ -196,13 +196,21 @@ func checkProperty(id string, thorough, verbose bool, replayFile string, timeout
 	}()
 	cfg := &SolverCfg{WorkDir: work, Timeout: time.Duration(timeout) * time.Second, Parallel: 16, KeepFiles: true, Cross: thorough}
 	stats := &solverStats{byBack: map[string]int{}}
+	known := loadKnown()
+	// obligations listed as open findings are expected to fail: no long solver race for them
+	for _, o := range all {
+		if matchKnown(known, id, o.Name) != nil {
+			for _, q := range o.Queries {
+				q.Cover = true
+			}
+		}
+	}
 	solveAll(cfg, all, stats)
 
-	known := loadKnown()
 	violations := 0
 	knownHit := []string{}
 	var samples []map[string]interface{}
-	nObl, nDis, nCover, nTrivial := 0, 0, 0, 0
+	nObl, nDis, nCover, nTrivial, nKnownObl := 0, 0, 0, 0, 0
 	var failed []*Obligation
 	for _, o := range all {
 		if o.ExpectSat {
@@ -210,6 +218,12 @@ func checkProperty(id string, thorough, verbose bool, replayFile string, timeout
 			if !o.Discharged {
 				failed = append(failed, o)
 			}
+			continue
+		}
+		if !o.Discharged && matchKnown(known, id, o.Name) != nil {
+			// a listed finding: reported as KNOWN-FINDING, not counted among the claimed obligations
+			failed = append(failed, o)
+			nKnownObl++
 			continue
 		}
 		nObl++
@@ -324,6 +338,7 @@ func checkProperty(id string, thorough, verbose bool, replayFile string, timeout
 		"covers_checked":            nCover,
 		"syntactically_trivial":     nTrivial,
 		"known_findings_hit":        knownHit,
+		"known_finding_obligations": nKnownObl,
 		"failed_obligations":        names(failed),
 		"cross_checked_unsat":       stats.crossOK,
 		"cross_check_disagreements": stats.crossBad,
